@@ -18,6 +18,9 @@ const DefaultStepBudget = 5_000_000
 // (problem simplification, certificate checking passes, MUS extraction rounds).
 const DefaultGlobalBudget = 100_000
 
+// ConcurrentMode is set once, before any task starts, by the scenarios that run several cases at the same time.
+var ConcurrentMode bool
+
 // hook configuration shared with the OnNew / OnStep callbacks. Sequential workers set it per case.
 var hookCfg struct {
 	sync.Mutex
@@ -45,6 +48,9 @@ func InstallSeqHooks() {
 // SetLearnedLimit sets the learned-clause limit given to solvers created from now on (0: default).
 // With sticky the limit is re-applied at every search step so that reduction recurs every limit conflicts.
 func SetLearnedLimit(limit int, sticky bool) {
+	if ConcurrentMode { // tasks run in parallel: no per-case hook configuration
+		return
+	}
 	hookCfg.learnedLimit = limit
 	hookCfg.sticky = sticky
 	solver.VerifResetGlobalSteps()
